@@ -71,6 +71,9 @@ func (g *ogen) jxNode() onode {
 		{"{{ exec(\"/octxr.jet\", nil) }}", g.E("false")}, {"{{ exec(\"/octxr.jet\", m[\"absent\"]) }}", g.E("false")},
 		{"{{ includeIfExists(\"/octx.jet\", m[\"absent\"]) }}", "none"}, {"{{ includeIfExists(\"/octx.jet\", nil) }}", "none"},
 		{"{{include \"/octx.jet\" ia}}", "has"}, {"{{ exec(\"/octxr.jet\", ia) }}", g.E("true")},
+		// ... also when the template's name is piped in: the explicit context is the argument after it
+		{"{{ \"/octxr.jet\" | exec: nil }}|{{ \"/octxr.jet\" | exec(nil) }}|{{ \"/octxr.jet\" | exec: ia }}|{{ nm | exec(\"/octxr.jet\", _) }}", g.E("false") + "|" + g.E("false") + "|" + g.E("true") + "|" + g.E("false")},
+		{"{{ \"/octx.jet\" | includeIfExists: nil }}|{{ \"/octx.jet\" | includeIfExists(m[\"absent\"]) }}|{{ \"/octx.jet\" | includeIfExists: ia }}", "none|none|has"},
 		// try is all-or-nothing whatever makes the body fail - also a Go runtime error inside a called method
 		{"{{try}}a{{ hold.Boom() }}b{{catch}}c{{end}}d", "cd"},
 		{"{{try}}a{{ hold.Boom().Arr }}b{{end}}d", "d"},
@@ -96,6 +99,7 @@ func (g *ogen) jxNode() onode {
 		// D58: a nil value of an interface type with methods prints like any nil, through every writer
 		{"{{ nerr.E }}|{{ nerr.St | raw }}|{{ nerr.Errs[\"k\"] }}|{{range nerr.Strs}}[{{.}}]{{end}}|{{ isset(nerr.E) }}", g.escape("<nil>") + "|<nil>|" + g.escape("<nil>") + "|[" + g.escape("<nil>") + "]|" + g.E("false")},
 		{"{{try}}{{ nerr.E }}{{catch}}DEAD{{end}}{{ safeHtml: nerr.St }}", g.escape("<nil>") + htmlEsc("<nil>")},
+		{"{{ " + v + ", " + ok + " := nerr.Errs[\"k\"] }}{{" + ok + "}}|{{ _, " + ok + " = nerr.Errs[\"zz\"] }}{{" + ok + "}}|{{if x9, ok9 := nerr.Errs[\"k\"]; ok9}}P{{else}}DEAD{{end}}", g.E("true") + "|" + g.E("false") + "|P"},
 		// D59: '_' as a target of the assigning form of range discards
 		{"{{ " + v + " := 0 }}{{range _, " + v + " = li}}{{" + v + "}};{{end}}{{" + v + "}}", g.E(3) + ";" + g.E(0) + ";" + g.E(7) + ";" + g.E(7)},
 		{"{{ " + v + " := 9 }}{{range " + v + ", _ = li}}{{" + v + "}}{{end}}|{{range _ = li}}x{{end}}", g.E(0) + g.E(1) + g.E(2) + "|xxx"},
@@ -103,9 +107,22 @@ func (g *ogen) jxNode() onode {
 		{"{{ isset(langs.en) }}{{ isset(langs[\"de\"]) }}{{ isset(langs.fr) }}", g.E("true") + g.E("true") + g.E("false")},
 		{"{{ langs.en }}|{{ langs[\"de\"] }}|{{ " + v + ", " + ok + " := langs[\"en\"] }}{{" + ok + "}}", g.escape("Hello<") + "|" + g.E("Hallo") + "|" + g.E("true")},
 	}
+	if r.Chance(12) || (g.flavor == "scope" || g.flavor == "blocks") && r.Chance(30) {
+		// a block whose body is empty - a slot that exists to be overridden - still binds and then DROPS its parameters
+		g.nblock++
+		bn := fmt.Sprintf("jslot%d", g.nblock)
+		pn := g.freshVar()
+		g.lib += "{{block " + bn + "(" + pn + "=\"d\")}}{{end}}"
+		cs = []gc{
+			{"{{yield " + bn + "(" + pn + "=\"x\")}}[{{isset(" + pn + ")}}]", "[" + g.E("false") + "]"},
+			{"{{ " + pn + " := \"o\" }}{{yield " + bn + "(" + pn + "=\"x\")}}[{{" + pn + "}}]", "[" + g.E("o") + "]"},
+			{"{{if " + v + " := 1; " + v + "}}{{yield " + bn + "()}}{{ " + ok + " := 2 }}{{end}}[{{isset(" + v + ", " + ok + ")}}{{isset(" + pn + ")}}]", "[" + g.E("false") + g.E("false") + "]"},
+			{"{{range li}}{{ " + ok + " := . }}{{yield " + bn + "(" + pn + "=.)}}{{end}}[{{isset(" + ok + ")}}]", "[" + g.E("false") + "]"},
+		}
+	}
 	c := cs[r.Intn(len(cs))]
 	// each flavour leans towards the constructs that speak about its own property
-	want := map[string]string{"fields": r.Pick([]string{"pets", "m8[", "mi1[", "nerr"}), "isset": r.Pick([]string{"mn[", "langs"}), "try": "{{try}}", "include": "octx", "control": r.Pick([]string{"nan", "owide", "else if", "range _"}), "calls": r.Pick([]string{"| rec", "opipe"}), "escape": r.Pick([]string{"owr", "nerr"}), "errors": r.Pick([]string{"nerr", "range _", "mu1["}), "scope": "else if"}[g.flavor]
+	want := map[string]string{"fields": r.Pick([]string{"pets", "m8[", "mi1[", "nerr"}), "isset": r.Pick([]string{"mn[", "langs", "nerr.Errs"}), "try": "{{try}}", "include": "octx", "control": r.Pick([]string{"nan", "owide", "else if", "range _"}), "calls": r.Pick([]string{"| rec", "opipe"}), "escape": r.Pick([]string{"owr", "nerr"}), "errors": r.Pick([]string{"nerr", "range _", "mu1["}), "scope": "else if"}[g.flavor]
 	for try := 0; want != "" && try < 4 && !strings.Contains(c.src, want); try++ {
 		c = cs[r.Intn(len(cs))]
 	}
@@ -290,6 +307,17 @@ func (g *ogen) failing() onode {
 		g.lib += fmt.Sprintf("{{block %s()}}[{{include %q}}]{{end}}", bn, i1)
 		pre := "{{yield " + bn + "() content}}C"
 		return onode{src: pre + "{{ nope }}{{end}}", out: "[<C", failOff: len(pre)}
+	}
+	if g.r.Chance(12) {
+		// the failing operand is a constant that was spelled before, on another line of the same file: the error
+		// names the line of the failing action
+		type fc struct{ pre, out, act string }
+		c := []fc{{"{{ 0 }}\n{{ \"x\" }}\n", g.E(0) + "\n" + g.E("x") + "\n", "{{ ia % 0 }}"},
+			{"{{if ia > 0}}p{{end}}\n\n", "p\n\n", "{{ ia % 0 }}"},
+			{"{{ \"px\" }}\n{{ 20 }}\n\n", g.E("px") + "\n" + g.E(20) + "\n\n", "{{ ia + \"px\" }}"},
+			{"{{ \"-\" }}{{ 20 }}\n", g.E("-") + g.E(20) + "\n", "{{ \"-\" * 20 }}"},
+			{"{{ 'a' }}\n{{ 9 }}\n", g.E(97) + "\n" + g.E(9) + "\n", "{{ li[9] }}"}}[g.r.Intn(5)]
+		return onode{src: c.pre + c.act, out: c.out, failOff: len(c.pre)}
 	}
 	act := g.r.Pick([]string{"{{ nope }}", "{{ ia / zero }}", "{{ li[9] }}", "{{ st.Missing }}", "{{ np.A }}", "{{ fail(\"x\") }}", "{{yield nosuchblock()}}", "{{include \"/absent.jet\"}}", "{{ sa - 1 }}", "{{ li[1:9] }}", "{{range ia}}x{{end}}", "{{ upper(_) }}", "{{ ident(n(1)) }}", "{{ v9 := n() }}", "{{ ident(np()) }}", "{{ rec(1, _) }}", "{{ slice(_, 1) }}", "{{ ident(rec(_)) }}",
 		"{{ cat(\"a\", _) }}", "{{ cat(\"a\", \"b\", _) }}", "{{ add3(1, _, 2) }}", "{{ add3(1, 2) }}", "{{ add3(1, 2, 3, 4) }}", "{{ sa() }}", "{{ st.A() }}",
